@@ -148,6 +148,21 @@ theorem build_genuine (ops : HashOps H) (L : List H) : Genuine ops (build ops L)
     rw [hget] at h1 h2 ⊢
     exact hs i a b h1 h2
 
+theorem build_length (ops : HashOps H) (L : List H) : (build ops L).length = 2 * roundupPow2 L.length - 1 := by
+  obtain ⟨d, hd⟩ := roundupPow2_pow L.length
+  have hpl := padLeaves_length ops L
+  have hspec := buildAux_spec ops (padLeaves ops L).length d (padLeaves ops L).length (padLeaves ops L) []
+    (by rw [hpl, hd]) (by rw [hpl, hd]; exact Nat.le_of_lt Nat.lt_two_pow_self)
+    (by simp; omega)
+    (by
+      intro x a b ha _
+      rw [List.append_nil] at ha
+      rw [List.getElem?_eq_none (by omega)] at ha; cases ha)
+  have hlen := hspec.2
+  unfold build; rw [List.length_map]
+  show (buildAux ops (padLeaves ops L).length (padLeaves ops L) []).length = _
+  omega
+
 theorem buildAux_suffix (ops : HashOps H) (f : Nat) (last below : List H) :
     ∃ pre, buildAux ops f last below = pre ++ (last ++ below) := by
   induction f generalizing last below with
